@@ -7,8 +7,15 @@
 ///   | #x85 | [#xA0-#xD7FF] | [#xE000-#xFFFD] /* 16 bit */
 ///   | [#x10000-#x10FFFF]                     /* 32 bit */
 /// ```
+///
+/// The emitter writes the block with a `|` or `|-` header and no indentation indicator. The
+/// indentation is then detected from the first non-empty line, which must not start with a space,
+/// and at most one trailing line break can be represented (there must be a line to attach it to).
 #[inline]
 pub(crate) fn is_valid_literal_block_scalar(string: &str) -> bool {
-    string.chars().all(|character: char|
-        matches!(character, '\t' | '\n' | '\x20'..='\x7e' | '\u{0085}' | '\u{00a0}'..='\u{d7fff}'))
+    let first_line = string.lines().find(|line| !line.is_empty());
+    first_line.is_some_and(|line| !line.starts_with(' '))
+        && !string.ends_with("\n\n")
+        && string.chars().all(|character: char|
+            matches!(character, '\t' | '\n' | '\x20'..='\x7e' | '\u{0085}' | '\u{00a0}'..='\u{d7fff}'))
 }
